@@ -7,12 +7,13 @@ Local Open Scope N_scope.
 Definition eid (e : event) : N := fst (fst e).
 Definition ids (ss : sess) : list N := map eid (events ss).
 
-Inductive op := OStart (inc : bool) (act : cbact) | OReply (a : answer) | OAbort.
+Inductive op := OStart (inc : bool) (act : cbact) | OReply (a : answer) | OAbort | ODestroy.
 Definition apply_op (ss : sess) (o : op) : sess :=
   match o with
   | OStart inc act => s_start inc act ss
   | OReply a => s_reply a ss
   | OAbort => s_abort ss
+  | ODestroy => s_destroy ss
   end.
 Definition run_ops (ops : list op) (ss : sess) : sess := fold_left apply_op ops ss.
 Definition op_ok (o : op) : Prop :=
@@ -97,7 +98,7 @@ Qed.
 
 Lemma SI_op ss o : SI ss -> op_ok o -> SI (apply_op ss o).
 Proof.
-  intros H Hok. pose proof H as [Hw _]. destruct o as [inc act|a|]; cbn [apply_op].
+  intros H Hok. pose proof H as [Hw _]. destruct o as [inc act|a| |]; cbn [apply_op].
   - unfold s_start. destruct ss as [a0 o c n ev]; cbn [ag owner owner_act next_id events] in *.
     destruct (on_complete a0) eqn:E.
     + apply SI_nested_false. apply SI_refuse. exact H.
@@ -112,6 +113,20 @@ Proof.
       apply SI_fire; [exact H | right; exact Hi | trivial].
   - unfold s_abort. apply SI_fire; [exact H | right; apply abort_idle; apply wf_set_ok; exact Hw |].
     intros E. unfold abort. rewrite E. cbn. exact E.
+  - unfold s_destroy.
+    set (ss0 := mkSess (ag ss) (owner ss) ANone (next_id ss) (events ss)).
+    assert (H0 : SI ss0) by (destruct ss; exact H).
+    assert (H1 : SI (fire true ss0 (abort (ag ss)))).
+    { apply SI_fire; [exact H0 | right; apply abort_idle; apply wf_set_ok; exact Hw |].
+      cbn [ag ss0]. intros E. unfold abort. rewrite E. cbn. exact E. }
+    assert (E1 : on_complete (ag (fire true ss0 (abort (ag ss)))) = false).
+    { unfold fire, ss0; cbn [ag owner owner_act next_id events].
+      assert (Ea : on_complete (abort (ag ss)) = false) by (unfold abort; destruct (on_complete (ag ss)) eqn:E; cbn; auto).
+      rewrite Ea. destruct (on_complete (ag ss)); cbn [andb negb]; [destruct (res_of _); cbn; exact Ea | cbn; exact Ea]. }
+    destruct (fire true ss0 (abort (ag ss))) as [a1 o1 c1 n1 ev1]; cbn [ag owner next_id events] in *.
+    assert (H2 : SI (mkSess a1 o1 ANone n1 ev1)) by exact H1.
+    apply (SI_keep a1); [exact H2 | | rewrite E1; reflexivity].
+    right. unfold idle_ok, idle0; cbn. repeat split; try constructor. intros x [].
 Qed.
 
 Lemma SI_run ops : forall ss, SI ss -> (forall o, In o ops -> op_ok o) -> SI (run_ops ops ss).
